@@ -140,15 +140,27 @@ def run(ctx):
             continue
         mols.append((s, m))
         mol_h.append(molio.export(Chem.AddHs(m)))
+    # the same species once more with its atoms numbered backwards: the query object is reused on it, so an
+    # answer remembered per species (rather than computed per molecule) shows up as wrong atom indices
+    twin = {}
+    for k, (s, m) in enumerate(list(mols)):
+        if m.GetNumAtoms() < 2 or (s not in CURATED and k % 4 != ctx.seed % 4):
+            continue
+        r = Chem.RenumberAtoms(m, list(reversed(range(m.GetNumAtoms()))))
+        mols.append((s + ' [atoms numbered backwards]', r))
+        mol_h.append(molio.export(Chem.AddHs(r)))
+        twin[k + 1] = len(mols)
     pairs = []
     for fi, (t, g) in enumerate(frags, 1):
         big = len(t) > 400
-        for mi in range(1, len(mols) + 1):
+        for mi in range(1, len(mols) - len(twin) + 1):
             if big and rng_.random() < .5:
                 continue
             if not thorough and rng_.random() < .55:
                 continue
             pairs.append([fi, mi])
+            if mi in twin and (thorough or rng_.random() < .5):
+                pairs.append([fi, twin[mi]])
     ctx.log('%d fragment texts, %d molecules, %d pairs' % (len(frags), len(mols), len(pairs)))
     data = {'frags': [codes(t) for t, _ in frags], 'mols': mol_h, 'pairs': pairs}
     outs = ctx.tlc_shards('MC_Match', 'MC_Match.cfg', nshards=16, env={'VIN': _vin(ctx, data)}, timeout=6000)
@@ -215,11 +227,16 @@ def run(ctx):
 
 def replay(ctx, rep):
     c = rep['case']
-    m = Chem.MolFromSmiles(c['smiles'])
+    back = ' [atoms numbered backwards]'
+    m = Chem.MolFromSmiles(c['smiles'].replace(back, ''))
+    kind, q, _ = call(Read, c['text'])
+    if c['smiles'].endswith(back):
+        if kind != 'error':
+            q.GetQueryMatches(m)        # the history: the same query object has seen the other numbering first
+        m = Chem.RenumberAtoms(m, list(reversed(range(m.GetNumAtoms()))))
     data = {'frags': [codes(c['text'])], 'mols': [molio.export(Chem.AddHs(m))], 'pairs': [[1, 1]]}
     outs = ctx.tlc_shards('MC_Match', 'MC_Match.cfg', nshards=1, env={'VIN': _vin(ctx, data)})
     spec = outs[0]['res']['1']
-    kind, q, _ = call(Read, c['text'])
     if kind == 'error':
         if spec['ok']:
             ctx.violation('unreadable:%r' % c['text'], 'still unreadable', c)
